@@ -273,4 +273,27 @@ CHECKS = {
             {"name": "failed", "test": "TestFailed", "quick": 3000, "thorough": 30000, "shards": 16},
         ],
     },
+    "C04": {
+        "pkg": "c04",
+        "level": "exploration",
+        "level_text": ("Generated privilege trees (1-6 levels, parent[i] in [0,i): every rooted labelled shape, authenticated edges, shared or "
+                       "distinct de-escalation strings, three prompt families whose prompts are verified with the real patterns to be claimed "
+                       "by exactly one level) x generated histories of acquire-priv / unknown target / send-command(s) / send-config(s) / "
+                       "interactive operations (with and without an explicit level) x read segmentation, against a mode-tracking device model "
+                       "that logs (mode, line). After every rule: device mode, the exact sequence of non-empty lines (tree-path commands, "
+                       "secret after an authenticated escalation, payload lines in the required mode), nothing typed after the last return; "
+                       "unknown target -> privilege error with zero bytes written. Plus an exhaustive enumeration of all trees up to 3 (quick) "
+                       "/ 4 (thorough) levels x auth edge x style x (current, target)."),
+        "level_note": ("Trusted: the device model and the path computation written from the statement. Prompt families are prefix-free: a "
+                       "proper prefix of one level's prompt is never another level's prompt (otherwise a segmented read is ambiguous by "
+                       "construction). The device changes level only through driver-issued commands."),
+        "technique": "stateful property-based testing (rapid): generated trees x operation histories vs a mode-tracking device model; bounded exhaustive tree enumeration",
+        "rule": ("tree x style x default level x 1-6 rules x cut plan. Non-trivial: a path with >= 2 hops, or down-then-up, or an authenticated "
+                 "edge, or >= 3 rules. Distinct = sha1(case)."),
+        "assumptions": ["commands in histories are mode-neutral", "AuthSecondary configured"],
+        "subs": [
+            {"name": "navigate", "test": "TestNavigate", "quick": 1500, "thorough": 15000, "shards": 16},
+            {"name": "trees", "test": "TestTrees", "quick": None, "thorough": None, "shards": 1, "enum": True},
+        ],
+    },
 }
